@@ -487,6 +487,67 @@ func ruleUnprotectedRecordBounded(c *Ctx, r *Report) {
 	if bad == "" && !(matched["epoch"] && matched["remote"]) {
 		bad = "the function never looks at the record's epoch and the remote epoch together"
 	}
+	// ... and, at any time - during the handshake too - an epoch-0 record whose content does not
+	// decode is dropped: with the record's epoch 0 and the record decoder failing, no return
+	// carries an error or an alert, whatever the remote epoch
+	for _, um := range findCalls(fn, nameHasSuffix("recordlayer.RecordLayer).Unmarshal")) {
+		um0 := um
+		w2 := &Walk{Fn: fn, Assume: func(v ssa.Value) (Val, bool) {
+			if v == ssa.Value(um0) {
+				return vNil(false), true
+			}
+			bo, okB := v.(*ssa.BinOp)
+			if !okB || (bo.Op != token.EQL && bo.Op != token.NEQ) {
+				return unknown, false
+			}
+			if k, isK := constInt(bo.Y); !isK || k != 0 {
+				return unknown, false
+			}
+			if _, f, _, okF := fieldLoad(stripConv(bo.X)); okF && f == "Epoch" {
+				return vBool(bo.Op == token.EQL), true
+			}
+			return unknown, false
+		}}
+		w2.After(um0)
+		bad2 := ""
+		for _, ro := range w2.Returns {
+			last := len(ro.Vals) - 1
+			if last >= 0 && !(ro.Vals[last].Kind == 2 && ro.Vals[last].B) && !isNilConst(unspill(ro.Ret.Results[last])) {
+				bad2 = "an error is returned at " + c.ipos(ro.Ret)
+			}
+			if v := fieldOfReturnedStruct(ro.Ret, 0, "responseAlert"); v != nil && !isNilConst(v) {
+				bad2 = "a response alert is returned at " + c.ipos(ro.Ret)
+			}
+		}
+		r.Check(bad2 == "" && len(w2.Returns) > 0, rule, short(fn)+":undecodable-epoch0", c.ipos(um0), "an epoch-0 record that does not decode is dropped at any time", "an unprotected (epoch 0) record whose content does not decode is answered during the handshake: "+bad2+": one forged 14-byte datagram makes this side send its genuine peer a fatal alert and ends the handshake both are in the middle of")
+	}
+	// application data in epoch 0 is never the peer's: dropped, not answered
+	if ad := c.Fn("(*dtls.Conn).handleApplicationDataRecord"); ad != nil {
+		w3 := (&Walk{Fn: ad, Assume: func(v ssa.Value) (Val, bool) {
+			bo, okB := v.(*ssa.BinOp)
+			if !okB || (bo.Op != token.EQL && bo.Op != token.NEQ) {
+				return unknown, false
+			}
+			if k, isK := constInt(bo.Y); !isK || k != 0 {
+				return unknown, false
+			}
+			if _, f, _, okF := fieldLoad(stripConv(bo.X)); okF && f == "Epoch" {
+				return vBool(bo.Op == token.EQL), true
+			}
+			return unknown, false
+		}}).FromEntry()
+		bad3 := ""
+		for _, ro := range w3.Returns {
+			last := len(ro.Vals) - 1
+			if last >= 0 && !(ro.Vals[last].Kind == 2 && ro.Vals[last].B) && !isNilConst(unspill(ro.Ret.Results[last])) {
+				bad3 = "an error is returned at " + c.ipos(ro.Ret)
+			}
+			if v := fieldOfReturnedStruct(ro.Ret, 1, "responseAlert"); v != nil && !isNilConst(v) {
+				bad3 = "a response alert is returned at " + c.ipos(ro.Ret)
+			}
+		}
+		r.Check(bad3 == "" && len(w3.Returns) > 0, rule, short(ad)+":application-data-epoch0", c.pos(ad.Pos()), "application data in epoch 0 is dropped", "application data in an unprotected (epoch 0) record is answered: "+bad3+": one forged datagram ends a handshake in progress")
+	}
 	r.Check(ok, rule, short(fn), c.pos(fn.Pos()), "an epoch-0 record received after the peer switched epochs is answered with nothing and returns no error", "an unprotected record that arrives after the peer switched to a protected epoch can still provoke an answer: "+bad+": one forged datagram (an alert with a one-byte body, a ChangeCipherSpec with a wrong body, application data in epoch 0, a truncated ACK) makes this side send its genuine peer a protected fatal alert and both close")
 }
 
